@@ -1,6 +1,6 @@
 """C06 — slab and fault geometry (structural necessary conditions only)."""
 from .. import facts, run
-from ..rules import segments
+from ..rules import segments, pure
 
 
 def main(tier):
@@ -13,6 +13,9 @@ def main(tier):
     segments.kernel_interpolation(P, rep)
     rep.assumptions.append("the line/arc construction itself (Utilities::distance_point_from_curved_planes, 650 lines of trigonometry over reals) "
                            "and the Newton closest-point search are NOT decided: a change inside them is invisible to this check")
+    # the answer does not depend on what was queried before (no cache that outlives a query: a necessary condition for a
+    # statement about 'all worlds and all points', which includes a second world in the same process)
+    pure.run(P, rep, pure.query_roots(P))
     rep.explanation = ("Membership predicates as normalised relations over the two distances, inclusive depth gate, agreement of the two "
                        "call sites of the curved-planes kernel and of the starting radius, unswapped hand-over of the two distances up to "
                        "World::distance_to_plane, slab/fault sibling agreement with a frozen table of explained differences.")
